@@ -127,6 +127,8 @@ func main() {
 			fi.sites++
 		}
 		labeled := map[ast.Stmt]bool{}
+		inSelect := map[ast.Node]bool{}
+		recv2 := map[*ast.UnaryExpr]bool{}
 		var walk func(n ast.Node)
 		walkList := func(list []ast.Stmt) {
 			for _, s := range list {
@@ -158,6 +160,52 @@ func main() {
 				case *ast.CallExpr:
 					rewriteBlockingCall(fi, x, info, offOf, &blockingCalls)
 					rewriteClockCall(fi, x, info, offOf, &clockCalls)
+				case *ast.SelectStmt:
+					// the communications of a select stay as they are (a select that blocks between two tasks
+					// is one of the things the simulator cannot make cooperative: see DESIGN.md §3.8)
+					for _, cl := range x.Body.List {
+						if cc, ok := cl.(*ast.CommClause); ok && cc.Comm != nil {
+							inSelect[cc.Comm] = true
+							ast.Inspect(cc.Comm, func(m ast.Node) bool {
+								if u, ok := m.(*ast.UnaryExpr); ok && u.Op == token.ARROW {
+									inSelect[u] = true
+								}
+								return true
+							})
+						}
+					}
+				case *ast.AssignStmt:
+					if len(x.Lhs) == 2 && len(x.Rhs) == 1 {
+						if u, ok := x.Rhs[0].(*ast.UnaryExpr); ok && u.Op == token.ARROW {
+							recv2[u] = true
+						}
+					}
+				case *ast.ValueSpec:
+					if len(x.Names) == 2 && len(x.Values) == 1 {
+						if u, ok := x.Values[0].(*ast.UnaryExpr); ok && u.Op == token.ARROW {
+							recv2[u] = true
+						}
+					}
+				case *ast.SendStmt:
+					// ch <- v  ->  verifsim.Send(ch, v): a task that cannot send lets the others run
+					if !inSelect[x] {
+						blockingCalls++
+						fi.edits = append(fi.edits,
+							edit{off: offOf(x.Pos()), end: offOf(x.Pos()), text: "verifsim.Send(", prio: 5},
+							edit{off: offOf(x.Chan.End()), end: offOf(x.Value.Pos()), text: ", ", prio: 5},
+							edit{off: offOf(x.End()), end: offOf(x.End()), text: ")", prio: -1})
+					}
+				case *ast.UnaryExpr:
+					if x.Op == token.ARROW && !inSelect[x] {
+						blockingCalls++
+						fn := "verifsim.Recv("
+						if recv2[x] {
+							fn = "verifsim.Recv2("
+						}
+						fi.edits = append(fi.edits,
+							edit{off: offOf(x.Pos()), end: offOf(x.X.Pos()), text: fn, prio: 5},
+							edit{off: offOf(x.End()), end: offOf(x.End()), text: ")", prio: -1})
+					}
 				case *ast.RangeStmt:
 					tv, ok := info.Types[x.X]
 					if !ok || tv.Type == nil {
@@ -343,6 +391,21 @@ func rewriteBlockingCall(fi *fileInfo, call *ast.CallExpr, info *types.Info, off
 		*n++
 		fi.edits = append(fi.edits, edit{off: offOf(call.Pos()), end: offOf(call.End()), prio: 5,
 			text: fmt.Sprintf("func() { for !(%s).TryRLock() { verifsim.Blocked() } }()", x)})
+	case "Cond.Wait", "Cond.Signal", "Cond.Broadcast":
+		// X.Wait() -> verifsim.CondWait(X) etc.: a task that waits for another task's Signal must let
+		// that task run (sync.Cond is used through a pointer: NewCond returns one, and a Cond must
+		// not be copied)
+		tv, ok := info.Types[sel.X]
+		if !ok {
+			return
+		}
+		ptr := "&(" + x + ")"
+		if _, isPtr := tv.Type.Underlying().(*types.Pointer); isPtr {
+			ptr = "(" + x + ")"
+		}
+		*n++
+		fi.edits = append(fi.edits, edit{off: offOf(call.Pos()), end: offOf(call.End()), prio: 5,
+			text: fmt.Sprintf("verifsim.Cond%s(%s)", fn.Name(), ptr)})
 	case "Once.Do":
 		if len(call.Args) != 1 {
 			return
@@ -607,11 +670,148 @@ import (
 // Hook is set by the simulator before a run starts and cleared after it.
 var Hook func(uint32)
 
+// condState is the notify list of one sync.Cond among the simulator's tasks: waiters take tickets,
+// Signal admits the oldest waiting ticket, Broadcast all of them (the runtime's own algorithm, so
+// that a waiter returns exactly when the real Wait could: no spurious wake-ups, FIFO Signal).
+// Plain arrays touched from norace code by the one running task: see onces.
+type condState struct {
+	c              *sync.Cond
+	next, admitted uint64
+}
+
+var (
+	conds  [64]condState
+	nConds int
+)
+
+//go:norace
+func condSlot(c *sync.Cond) *condState {
+	for i := 0; i < nConds; i++ {
+		if conds[i].c == c {
+			return &conds[i]
+		}
+	}
+	if nConds == len(conds) {
+		return nil
+	}
+	conds[nConds].c = c
+	nConds++
+	return &conds[nConds-1]
+}
+
+//go:norace
+func condTicket(c *sync.Cond) (st *condState, ticket uint64) {
+	if st = condSlot(c); st == nil {
+		return nil, 0
+	}
+	ticket = st.next
+	st.next++
+	return st, ticket
+}
+
+//go:norace
+func condAdmitted(st *condState, ticket uint64) bool { return st.admitted > ticket }
+
+//go:norace
+func condNotify(c *sync.Cond, all bool) {
+	st := condSlot(c)
+	if st == nil {
+		return
+	}
+	if all {
+		st.admitted = st.next
+	} else if st.admitted < st.next {
+		st.admitted++
+	}
+}
+
+// CondWait is c.Wait() for the simulator: the lock is released, the task hands over until a
+// Signal or Broadcast admits its ticket, then it takes the lock again (cooperatively).
+//go:norace
+func CondWait(c *sync.Cond) {
+	if BlockedHook == nil {
+		c.Wait()
+		return
+	}
+	st, ticket := condTicket(c)
+	if st == nil {
+		c.Wait()
+		return
+	}
+	c.L.Unlock()
+	for !condAdmitted(st, ticket) {
+		Blocked()
+	}
+	if tl, ok := c.L.(interface{ TryLock() bool }); ok {
+		for !tl.TryLock() {
+			Blocked()
+		}
+		return
+	}
+	c.L.Lock()
+}
+
+// CondSignal is c.Signal() for the simulator (waiters that are goroutines of the library's own are
+// woken by the real call).
+//go:norace
+func CondSignal(c *sync.Cond) {
+	condNotify(c, false)
+	c.Signal()
+}
+
+// CondBroadcast is c.Broadcast() for the simulator.
+//go:norace
+func CondBroadcast(c *sync.Cond) {
+	condNotify(c, true)
+	c.Broadcast()
+}
+
+// Send is ch <- v for the simulator: a task that cannot send hands over to the others.
+//go:norace
+func Send[T any](ch chan<- T, v T) {
+	if BlockedHook == nil {
+		ch <- v
+		return
+	}
+	for {
+		select {
+		case ch <- v:
+			return
+		default:
+			Blocked()
+		}
+	}
+}
+
+// Recv is <-ch for the simulator.
+func Recv[T any](ch <-chan T) T {
+	v, _ := Recv2(ch)
+	return v
+}
+
+// Recv2 is the two-value form of <-ch for the simulator.
+//go:norace
+func Recv2[T any](ch <-chan T) (T, bool) {
+	if BlockedHook == nil {
+		v, ok := <-ch
+		return v, ok
+	}
+	for {
+		select {
+		case v, ok := <-ch:
+			return v, ok
+		default:
+			Blocked()
+		}
+	}
+}
+
 // WorkHook receives the number of bytes a statement hands to bulk primitives (copy, append,
 // bytes.*, strings.*, conversions, concatenation): work done outside the instrumented statements.
 var WorkHook func(int)
 
 // W charges n bytes of bulk work to simulated time.
+//go:norace
 func W(n int) {
 	if h := WorkHook; h != nil {
 		h(n)
@@ -632,6 +832,7 @@ var (
 func bumpClockReads() { ClockReads++ }
 
 // Now is time.Now under the simulator's clock.
+//go:norace
 func Now() time.Time {
 	bumpClockReads()
 	if h := ClockHook; h != nil {
@@ -647,6 +848,7 @@ func Since(t time.Time) time.Duration { return Now().Sub(t) }
 func Until(t time.Time) time.Duration { return t.Sub(Now()) }
 
 // Sleep is time.Sleep under the simulator's clock: simulated time passes, nobody waits.
+//go:norace
 func Sleep(d time.Duration) {
 	if h := SleepHook; h != nil {
 		h(d)
@@ -660,6 +862,7 @@ func Sleep(d time.Duration) {
 var BlockedHook func()
 
 // Blocked is what the rewritten Lock / RLock / Once.Do calls spin on.
+//go:norace
 func Blocked() {
 	if h := BlockedHook; h != nil {
 		h()
@@ -723,6 +926,8 @@ func onceLeave(o *sync.Once) {
 // the Once yields instead of blocking on the Once's internal mutex. The real
 // o.Do is still what runs f and what late callers go through, so the
 // happens-before edge sync.Once provides is the real one.
+//
+//go:norace
 func OnceDo(o *sync.Once, f func()) {
 	for {
 		run, done := onceEnter(o)
@@ -739,7 +944,12 @@ func OnceDo(o *sync.Once, f func()) {
 	}
 }
 
-// Y is called before every statement of the instrumented package.
+// Y is called before every statement of the instrumented package. (norace, like every entry
+// point of this package: the hook variables are the simulator's, written by its main goroutine
+// between phases; a goroutine the library keeps running in the background reads them at every
+// statement, and that is not a race of the library's.)
+//
+//go:norace
 func Y(s uint32) {
 	if h := Hook; h != nil {
 		h(s)
